@@ -76,7 +76,7 @@ def spell(tape, src, dst, noise=True):
         segs = path.split('/')
         # insert './' or 'zz/../' before a drawn segment (never changes the resolved path)
         i = 1 + tape.draw(max(1, len(segs) - 1), 'sp.dot.i')
-        segs.insert(i, tape.choice(('.', 'zz/..'), 'sp.dot.k'))
+        segs.insert(i, tape.choice(('.', 'zz/..', '.', 'zz/..', 'zz/%2E%2E', '%2e', 'zz/.%2e'), 'sp.dot.k'))
         path = '/'.join(segs)
     if noise and path.endswith('/') and not q and tape.chance(1, 8, 'sp.dot.trailing'):
         path += tape.choice(('.', 'zz/..', './.'), 'sp.dot.trailing.k')       # a trailing dot segment names the directory: '/d1/.' is '/d1/'
@@ -284,10 +284,15 @@ def gen_site(tape, nhosts=1, npages=6, with_requisites=True, with_redirects=True
             if tape.chance(1, 3, 'site.inline'):
                 p.inlines.append((a, spell(tape, p, a), 'css' if a.kind == 'css' else tape.choice(('img', 'img', 'embed', 'input'), 'site.inline.tag')))
         if tape.chance(1, 8, 'site.iframe'):
-            # another page of the site shown in a frame: an embedded object that is an HTML document with links of its own
-            fr = pages[tape.draw(len(pages), 'site.iframe.dst')]
-            if fr is not p and (cross_host_links or fr.origin.key() == p.origin.key()):
-                p.inlines.append((fr, spell(tape, p, fr), 'iframe'))
+            # a document shown in a frame: an embedded object that is an HTML page with links of its own. It is reachable
+            # through the frame only (a page that is linked as well as framed would be at the mercy of which discovery
+            # record the table keeps, C01-K3)
+            fr = site.add(p.origin, p.dir + 'frame%d.html' % len(site.order), 'page')
+            for _ in range(tape.between(0, 2, 'site.iframe.nlinks')):
+                dst = pages[tape.draw(len(pages), 'site.iframe.link')]
+                if cross_host_links or dst.origin.key() == fr.origin.key():
+                    fr.links.append((dst, spell(tape, fr, dst)))
+            p.inlines.append((fr, spell(tape, p, fr), 'iframe'))
             if a.kind == 'bin' and tape.chance(1, 6, 'site.link_to_asset'):
                 # the same object may be linked (<a>) as well as embedded. Only leaf objects: a style sheet reached both
                 # ways would make everything below it depend on which record the table happened to keep (C01-K2/K3)
@@ -321,16 +326,27 @@ def canon(url):
         netloc = host
     else:
         netloc = '%s:%d' % (host, int(port))
+    p = resolve_dot_segments(path or '/')
+    return '%s://%s%s%s' % (scheme, netloc, p, query or '')
+
+
+def resolve_dot_segments(path):
+    """RFC 3986 5.2.4 / 6.2.2.2: '.' is unreserved, so '%2E' is the same octet: '%2e%2E' is a dot segment like '..'."""
+    import re
     out = []
-    for seg in (path or '/').split('/')[1:]:
-        if seg == '.':
+    segs = path.split('/')[1:]
+    last = ''
+    for seg in segs:
+        plain = re.sub(r'%2[eE]', '.', seg)
+        last = plain
+        if plain == '.':
             continue
-        if seg == '..':
+        if plain == '..':
             if out:
                 out.pop()
             continue
         out.append(seg)
     p = '/' + '/'.join(out)
-    if (path.endswith('/.') or path.endswith('/..')) and not p.endswith('/'):
+    if last in ('.', '..') and not p.endswith('/'):
         p += '/'
-    return '%s://%s%s%s' % (scheme, netloc, p, query or '')
+    return p
